@@ -149,3 +149,18 @@ def pt_duration_str(total):
     if s > 0:
         out = out + str(s) + 'S'
     return out
+
+
+def iso_year_of_week(monday_ord):
+    """ISO year of the week that starts on this Monday: the calendar year of its Thursday"""
+    return date_of_ordinal(monday_ord + 3).year
+
+
+def iso_week_of_week(monday_ord):
+    return (monday_ord - iso_week1_monday(iso_year_of_week(monday_ord))) // 7 + 1
+
+
+def shift_month(y, m, k):
+    """(year, month) k months after (y, m)"""
+    t = y * 12 + (m - 1) + k
+    return (t // 12, t % 12 + 1)
